@@ -25,8 +25,15 @@ def libs():
     """Import modelx/pandas lazily (VERIF_REPO overrides the library location)."""
     if not _mods:
         repo = os.environ.get("VERIF_REPO")
-        if repo and repo not in sys.path:
-            sys.path.insert(0, repo)
+        if repo:
+            repo = os.path.abspath(repo)
+            if sys.path[0] != repo:
+                sys.path.insert(0, repo)
+            loaded = sys.modules.get("modelx")
+            if loaded is not None and not os.path.abspath(loaded.__file__).startswith(repo + os.sep):
+                # something imported the default tree first: drop it
+                for k in [k for k in sys.modules if k == "modelx" or k.startswith("modelx.")]:
+                    del sys.modules[k]
         import modelx
         import pandas
         from modelx.core.system import mxsys
